@@ -718,6 +718,42 @@ def desugar_question_controlflow(body, where, prov):
     return body
 
 
+def desugar_iter_mut_for_each(body, count, where, prov, rename=None):
+    """class D: `RECV.iter_mut().for_each(|X| BODY)` becomes
+       `{ let n = RECV.len(); let mut k = 0; while k < n { let X = &mut RECV[k]; BODY; k += 1; } }`
+       (each element visited once, in order, by mutable reference). Index variables are numbered per site."""
+    done = 0
+    while True:
+        toks = code_tokens(body)
+        ks = [i for i, t in enumerate(toks) if t[1] == "for_each" and toks[i - 1][1] == "." and toks[i - 2][1] == ")" and toks[i - 3][1] == "(" and toks[i - 4][1] == "iter_mut"
+              and toks[i + 1][1] == "(" and toks[i + 2][1] == "|" and toks[i + 4][1] == "|" and toks[i + 3][0] == "id"]
+        if not ks:
+            break
+        k = ks[-1]
+        x = toks[k + 3][1]
+        close = match_close(toks, k + 1)
+        cbody = body[toks[k + 5][2]:toks[close - 1][3]]
+        for t in toks[k + 5:close]:
+            if t[0] == "id" and t[1] in ("return", "break", "continue") or t[1] == "?":
+                raise LostAnchor("%s: for_each closure contains %s" % (where, t[1]))
+        st = _operand_start(toks, k - 5)
+        recv = re.sub(r"\s+", "", body[toks[st][2]:toks[k - 6][3]])
+        if rename and x in rename:
+            cbody = _alpha(cbody, x, rename[x])
+            x = rename[x]
+        end = toks[close][3]
+        if body[end:end + 1] == ";":
+            end += 1
+        n_, k_ = "n_m%d" % done, "k_m%d" % done
+        new = "{ let %s = %s.len(); let mut %s: usize = 0; while %s < %s { let %s = &mut %s[%s]; %s; %s += 1; } }" % (n_, recv, k_, k_, n_, x, recv, k_, cbody, k_)
+        prov.append({"cls": "D", "what": "iter_mut().for_each desugared to an index loop over `%s` (index %s)" % (recv, k_), "elem": x})
+        body = body[:toks[st][2]] + new + body[end:]
+        done += 1
+    if done != count and not (count == -1 and done >= 1):
+        raise LostAnchor("%s: %d iter_mut().for_each sites desugared, unit declares %d" % (where, done, count))
+    return body
+
+
 def lift_fold(sig, body, fl, where, prov):
     """class D (lifted form, used when the fold closure has early returns):
        `let N: T = ITER.fold(INIT, |mut ACC, X| BODY);` becomes
@@ -1042,10 +1078,12 @@ class Unit:
             sig = strip_comments(it.sig)
             body = strip_comments(it.body)
             if spec.get("contract_only"):
-                spec = {k: v for k, v in spec.items() if k not in ("lift", "fold_lift", "desugar_folds", "desugar_map_collect_sets", "desugar_iter_mut_chain", "desugar_for_each", "desugar_try_for_each", "desugar_question_controlflow", "closure", "autofmt", "top", "loop")}
+                spec = {k: v for k, v in spec.items() if k not in ("lift", "fold_lift", "desugar_folds", "desugar_map_collect_sets", "desugar_iter_mut_chain", "desugar_for_each", "desugar_try_for_each", "desugar_question_controlflow", "desugar_iter_mut_for_each", "closure", "autofmt", "top", "loop")}
                 spec["edit"] = [e for e in spec.get("edit", []) if e.get("in") == "sig"]
             sig = apply_edits(sig, [e for e in spec.get("edit", []) if e.get("in") == "sig"], where, prov)
             body = apply_edits(body, [e for e in spec.get("edit", []) if e.get("in", "body") == "body"], where, prov)
+            if spec.get("desugar_iter_mut_for_each"):
+                body = desugar_iter_mut_for_each(body, spec["desugar_iter_mut_for_each"], where, prov, spec.get("rename_bound"))
             if spec.get("desugar_try_for_each"):
                 body = desugar_try_for_each(body, spec["desugar_try_for_each"], where, prov, spec.get("rename_bound"))
             if spec.get("desugar_question_controlflow"):
